@@ -12,6 +12,7 @@ DECIDED = ("R1 Kernel::bind: the socket is created and its binding inserted only
            "equality; find_listener tries exact before wildcard; R5 Fabric::deliver reaches a kernel only through the ip_to_host "
            "lookup of the destination; loopback never leaves the kernel (C19-R3).")
 NOT_DECIDED = "the accept/reject matrix as a function of live sockets; SO_REUSE* (not modelled)."
+DECIDED += "; R2 also the converse: wherever Socket::bound is set the binding index is updated in the same function"
 ASSUMPTIONS = []
 
 K = "turmoil_net::kernel::Kernel::"
